@@ -706,6 +706,38 @@ def fam_random(rng, eps=False):
                 lex_overlap=False)
 
 
+def fam_unprod(rng):
+    """Grammars with a rule that has no recursion-terminating alternative: every
+    table construction raises GrammarError ('First set empty ... infinite
+    recursion').  Material for 'a construction that fails with a grammar error
+    leaves the Grammar usable / gives the same result again'.  Some versions are
+    productive, so histories mix failing and succeeding grammar objects."""
+    which = rng.randrange(3)
+
+    def mk(variant):
+        if which == 0:
+            rules = [Rule("S", [Alt(["a"]), Alt(["B"])]),
+                     Rule("B", [Alt(["B", "b"])] + ([Alt(["b"])] if variant == 1 else []))]
+            names = ["a", "b"]
+        elif which == 1:
+            rules = [Rule("S", [Alt(["Elements"])]),
+                     Rule("Elements", [Alt(["Elements", "Element"])]
+                          + ([Alt(["Element"])] if variant == 1 else [])),
+                     Rule("Element", [Alt(["x"]), Alt(["y"])] if variant != 2 else [Alt(["x"])])]
+            names = ["x", "y"] if variant != 2 else ["x"]
+        else:
+            rules = [Rule("S", [Alt(["A", "c"])]),
+                     Rule("A", [Alt(["A", "a"]), Alt(["B"])]),
+                     Rule("B", [Alt(["A", "b"])] + ([Alt(["b"])] if variant == 1 else []))]
+            names = ["a", "b", "c"]
+        if variant == 2 and which != 1:
+            rules[0].alts.reverse()
+        return GModel(rules, [Term(n, "str", n, [n]) for n in names])
+
+    return dict(family="unprod", models=[mk(i) for i in range(3)], layout="ws",
+                lex_overlap=False, no_derive=True)
+
+
 MAX_TOKENS = {"amb": 7, "random": 10, "random-eps": 6, "nullable": 12}
 
 FAMILIES = {
@@ -718,6 +750,7 @@ FAMILIES = {
     "amb": fam_amb,
     "random": fam_random,
     "random-eps": fam_random_eps,
+    "unprod": fam_unprod,
 }
 
 
@@ -790,7 +823,12 @@ def gen_input(rng, sc, version=None, p_damage=0.5, max_faults=3, kinds=None):
     models = sc["models"]
     v = rng.randrange(len(models)) if version is None else version
     m = models[v]
-    toks = m.sentence(rng, depth=rng.randint(1, 5))
+    if sc.get("no_derive"):
+        # some nonterminal derives no sentence: token soup instead of a derivation
+        lex = m.all_lexemes()
+        toks = [("<soup>", rng.choice(lex)) for _ in range(rng.randint(0, 6))]
+    else:
+        toks = m.sentence(rng, depth=rng.randint(1, 5))
     mt = MAX_TOKENS.get(sc["family"], 40)
     if len(toks) > mt:
         toks = toks[: rng.randint(1, mt)]
